@@ -32,7 +32,9 @@ from raysect.optical import World
 from cherab.tools.inversions import AxisymmetricVoxel, ToroidalVoxelGrid
 
 ID = "C17"
-RULE = ("Polygons are built by construction in a local frame and then scaled (1e-3..1e2) and placed at a radial offset "
+RULE = ("Polygons are built by construction in a local frame and then scaled by a length scale drawn log-uniformly from 1e-6 "
+        "to 1e3 (micrometre to kilometre cells), optionally squeezed into a sliver (aspect ratio 10..1e6 along r or z), and "
+        "placed at a radial offset "
         "(touching the axis, or 0.01..1e4 sizes away; <=1e2 for the sampling and grid sub-checks while finding "
         "C17-oob-triangle-index is open, <=1e5 afterwards) and a height offset of either sign: "
         "triangles, axis-aligned rectangles, convex polygons (affine images of polygons inscribed in a circle), star-shaped "
@@ -44,13 +46,17 @@ RULE = ("Polygons are built by construction in a local frame and then scaled (1e
         "not star-shaped (general position: dart, bolt, ell, hook, coil, fork; with collinear vertices: L, U, comb, spiral "
         "- the latter only once finding C17-ear-clipping-collinear is closed; 4-12 vertices); primitive_type csg or mesh (mesh only when it gives 3..32 toroidal "
         "segments). geometry: every one of the 2n vertex orders (n cyclic rotations x 2 orientations) is constructed (mesh "
-        "cases: one order per orientation as mesh, the others as csg) and compared with the exact rational area/centroid/volume; non-trivial = concave or >=5 vertices. Every voxel is constructed from a drawn container kind (list of lists, list of tuples, list of "
+        "cases: one order per orientation as mesh, the others as csg) and compared with the exact rational area/centroid/volume; scale covariance: voxel(k*vertices) for k in "
+        "{2^-13, 2^-7, 8, 1024} must give exactly k^2 A, k c, k^3 V (bit for bit) and for k in {1e-4, 1e-2, 10, 1e3} the "
+        "same within the a-priori bound, each scaled voxel also against its own exact values (grid: total_volume of the "
+        "scaled grid for one decimal and one binary k); radial offsets also 1e4..2e6 sizes at a height of a few sizes "
+        "(R = 10 m, 1e-5 m cell); offsets are reduced until sum|x y|/(2 area) <= 1e9; non-trivial = concave or >=5 vertices. Every voxel is constructed from a drawn container kind (list of lists, list of tuples, list of "
         "Point2D, C-contiguous float64 (n,2) ndarray, strided ndarray view; grids also one (m,n,2) ndarray): the caller's "
         "container must be bit-identical after construction, is then shifted and reversed in place by the caller, and "
         "area/centroid/volume/vertices are re-read (must be unchanged; vertices = the input polygon as a cyclic sequence). "
         "sampling: one drawn "
         "vertex order (all 2n orders for the look-alike quadrilaterals, N=20000 for the drawn one and 6000 for the others), "
-        "raysect RNG seeded from the case, N in {4000, 20000}; non-trivial = >=4 vertices, order rotated or "
+        "raysect RNG seeded from the case, N in {4000, 10000, 20000}; non-trivial = >=4 vertices, order rotated or "
         "reversed, and the triangles raysect's ear clipping makes for that order differ in area by >10 %. grid: 1-12 "
         "non-overlapping cells (lattice of rectangles / inscribed polygons), constructed with active='all' or a drawn index, "
         "with or without a parent World / transform, then driven through 0-6 drawn state-changing public calls "
@@ -88,10 +94,14 @@ TOLERANCES = {
                    "per test (= two-sided 6 sigma); var exact from the polygon's second moments for linear fields and "
                    "indicators (p(1-p)), var <= R^2/4 with an interval-arithmetic range R for quadratics; plus the "
                    "rounding of the N-term sequential sum, 2 (N+8) u max|f| (1e-9 (|c0|+R) for the quadratic)",
-    "inside": "every sample point within 1e-12 x (max |coordinate| + diameter) of the polygon (4500 u: the barycentric "
-              "interpolation and the float orientation test both carry a few u x |coordinate|)",
+    "inside": "every sample point inside the polygon up to a per-axis coordinate uncertainty er = 1e-12 max|r|, ez = 1e-12 "
+              "max(|z|, height) (4500 u: the barycentric interpolation carries a few u x |coordinate| per axis), i.e. "
+              "edge cross product >= -(|dr| ez + |dz| er); hit counts use strict float orientation tests",
     "caller-memory": "bit-identical bytes before/after construction; numbers re-read after the caller modified its "
                      "container must be identical (==) to the first reading",
+    "scale-covariance": "k a power of two: == (every operation scales exactly, no under/overflow between 1e-16 and 1e12); "
+                        "decimal k: (2x3+2) x the a-priori bound of the unscaled polygon x k^p + 8u (k*x is rounded once "
+                        "per coordinate: one more term of the same first-order bound)",
     "total_volume": "== Python sequential sum of voxel.volume to 1e-12 relative (same arithmetic) and == sum of exact "
                     "volumes within the summed volume bounds",
 }
@@ -105,6 +115,10 @@ REQUIRED_LABELS = ["geometry:kind=tri", "geometry:kind=rect", "geometry:kind=con
                    "geometry:input=ndarray-view", "sampling:input=list", "sampling:input=point2d",
                    "sampling:input=ndarray-c", "sampling:input=ndarray-view",
                    "grid:input=list", "grid:input=point2d", "grid:input=ndarray-c", "grid:input=ndarray-3d",
+                   "geometry:size<1e-4", "geometry:size<1e-2", "geometry:size<1", "geometry:size<1e2", "geometry:size>=1e2",
+                   "geometry:area<=1e-8", "geometry:area<=1e-12", "geometry:sliver>=1e3", "geometry:majorR>=1e4sizes",
+                   "sampling:size<1e-4", "sampling:size>=1e2", "sampling:area<=1e-8", "sampling:sliver>=1e3",
+                   "sampling:majorR>=1e4sizes", "grid:size<1e-4", "grid:size>=1e2", "grid:area<=1e-8",
                    "grid:ctor-active=all", "grid:ctor-active=int", "grid:ctor-parent=world", "grid:ctor-transform",
                    "grid:state=all-parented", "grid:state=one-parented", "grid:state=some-parented",
                    "grid:state=none-parented", "grid:state=grid-in-world", "grid:state=grid-detached",
@@ -408,15 +422,18 @@ def local_shape(draw, kinds):
     return {"kind": kind, "local": loc, "kernel": [0.0, 0.0], "tris": None}
 
 
-def place(shape, s, g, h):
-    """scale by s, put the innermost vertex at r = g*s (g = 0: on the axis), shift heights by h*s."""
+def place(shape, s, g, h, ar=1.0, az=1.0):
+    """scale by s (and by the anisotropy factors ar, az <= 1 along r, z: slivers), put the innermost vertex at r = g*s
+    (g = 0: on the axis), shift heights by h*s.  An orientation-preserving affine map: simple polygons stay simple,
+    star-shaped ones stay star-shaped w.r.t. the mapped kernel, triangulations stay triangulations."""
     loc = shape["local"]
     xmin = min(p[0] for p in loc)
     r_lo = g * s
-    verts = [[r_lo + (p[0] - xmin) * s, h * s + p[1] * s] for p in loc]
+    sr, sz = s * ar, s * az
+    verts = [[r_lo + (p[0] - xmin) * sr, h * s + p[1] * sz] for p in loc]
     kern = None
     if shape["kernel"] is not None:
-        kern = [r_lo + (shape["kernel"][0] - xmin) * s, h * s + shape["kernel"][1] * s]
+        kern = [r_lo + (shape["kernel"][0] - xmin) * sr, h * s + shape["kernel"][1] * sz]
     return verts, kern
 
 
@@ -425,14 +442,28 @@ def mesh_segments(verts, ex):
     return TWO_PI * ex.fcx / width if width > 0 else float("inf")
 
 
-def _finish_poly(shape, s, g, h, prim, inp="list"):
+KAPPA_MAX = 1e9     # offsets are reduced until (sum |x_i y_j|) / (2 area) <= 1e9: beyond that the double-precision shoelace
+#                     sums of the code under test (and raysect's orientation predicates) lose more than ~1e-6 relative
+
+
+def _finish_poly(shape, s, gh, aniso, prim, inp="list"):
+    g, h = gh
+    ar, az = aniso
     if shape.get("dyadic"):          # exact binary coordinates: power-of-two scale, quarter-integer offsets
         s = 2.0 ** round(math.log2(s))
         g = round(g * 4.0) / 4.0
         h = round(h * 4.0) / 4.0
-    verts, kern = place(shape, s, g, h)
-    ex = Exact(verts)
-    if ex.degenerate:
+        ar = 2.0 ** round(math.log2(ar))
+        az = 2.0 ** round(math.log2(az))
+    for _ in range(12):
+        verts, kern = place(shape, s, g, h, ar, az)
+        ex = Exact(verts)
+        if ex.degenerate:
+            return None
+        if rounding_bounds(verts, ex)["kappa"] <= KAPPA_MAX:
+            break
+        g, h = (g / 8.0, h / 8.0) if not shape.get("dyadic") else (round(g / 2.0) / 4.0, round(h / 2.0) / 4.0)
+    else:
         return None
     if prim == "mesh" and not (3.2 <= mesh_segments(verts, ex) <= 32.0):
         prim = "csg"
@@ -457,11 +488,26 @@ KINDS = ["tri", "rect", "convex", "star", "star", "tmpl", "tmpl", "trap", "trap"
 INPUT_KINDS = ["list", "tuples", "point2d", "ndarray-c", "ndarray-c", "ndarray-view"]
 
 
-def poly_strategy(gmax, kinds=KINDS):
+def _offset_pair(gmax):
+    """(g, h) in units of the size: independent offsets up to 10^gmax sizes, or a large major radius (1e4 .. 2e6 sizes:
+    R = 10 m with a 1e-5 m cell) at a height of a few sizes."""
     g, h = _offsets(gmax)
-    s = st.floats(-3.0, 2.0).map(lambda e: 10.0 ** e)
+    large_r = st.tuples(st.floats(4.0, 6.3).map(lambda e: 10.0 ** e),
+                        st.builds(lambda m, neg: -m if neg else m, st.floats(0.0, 10.0), st.booleans()))
+    return st.one_of(st.tuples(g, h), st.tuples(g, h), st.tuples(g, h), large_r)
+
+
+# length scale of the cell: micrometres to kilometres, log-uniform
+SCALE = st.one_of(st.floats(-6.0, 3.0), st.floats(-6.0, 3.0), st.sampled_from([-6.0, -5.0, -4.0, 3.0])).map(lambda e: 10.0 ** e)
+# anisotropy: isotropic, or a sliver squeezed by 10 .. 1e6 along r or z
+ANISO = st.one_of(st.just([1.0, 1.0]), st.just([1.0, 1.0]),
+                  st.tuples(st.floats(1.0, 6.0), st.booleans()).map(lambda t: [10.0 ** -t[0], 1.0] if t[1] else [1.0, 10.0 ** -t[0]]))
+
+
+def poly_strategy(gmax, kinds=KINDS):
     prim = st.sampled_from(["csg", "csg", "mesh"])
-    return st.builds(_finish_poly, local_shape(kinds), s, g, h, prim, st.sampled_from(INPUT_KINDS)).filter(lambda p: p is not None)
+    return st.builds(_finish_poly, local_shape(kinds), SCALE, _offset_pair(gmax), ANISO, prim,
+                     st.sampled_from(INPUT_KINDS)).filter(lambda p: p is not None)
 
 
 def geometry_strategy():
@@ -481,7 +527,7 @@ def sampling_strategy():
         "rot": st.integers(0, 11),
         "rev": st.booleans(),
         "seed": st.integers(1, 2 ** 31 - 1),
-        "n": st.sampled_from([4000, 20000, 20000]),
+        "n": st.sampled_from([4000, 10000, 20000]),
         "const": _const,
         "lin": st.tuples(st.floats(-100.0, 100.0), _coef, _coef).map(list),
         "quad": st.tuples(_coef, _coef, _coef).map(list),
@@ -492,7 +538,7 @@ def sampling_strategy():
 def grid_strategy(draw):
     nr = draw(st.integers(1, 12))
     nz = draw(st.integers(1, 12 // nr))
-    s = 10.0 ** draw(st.floats(-2.0, 1.0))
+    s = draw(SCALE)
     g, h = _offsets(SAMPLING_GMAX)
     r0 = draw(g) * s
     z0 = draw(h) * s
@@ -504,11 +550,13 @@ def grid_strategy(draw):
     for w in wz:
         zedges.append(zedges[-1] + w * s)
     rev_all = draw(st.booleans())
+    input_kind = draw(st.sampled_from(["list", "point2d", "ndarray-c", "ndarray-c", "ndarray-3d"]))
+    uniform_kind = draw(st.sampled_from(["rect", "tris"]))      # one (m, n, 2) array needs cells with equal vertex counts
     cells = []
     for i in range(nr):
         for j in range(nz):
             ra, rb, za, zb = redges[i], redges[i + 1], zedges[j], zedges[j + 1]
-            kind = draw(st.sampled_from(["rect", "rect", "tris", "shape"]))
+            kind = uniform_kind if input_kind == "ndarray-3d" else draw(st.sampled_from(["rect", "rect", "tris", "shape"]))
             if kind == "rect":
                 polys = [[[ra, za], [rb, za], [rb, zb], [ra, zb]]]
             elif kind == "tris":                      # the cell split along a diagonal (typical unstructured grids)
@@ -552,7 +600,8 @@ def grid_strategy(draw):
     )
     ops = draw(st.lists(op, min_size=0, max_size=6))
     return {"cells": cells, "prim": prim, "ctor": ctor, "ops": ops, "const": draw(_const),
-            "input": draw(st.sampled_from(["list", "point2d", "ndarray-c", "ndarray-c", "ndarray-3d"])),
+            "input": input_kind,
+            "k": [draw(st.sampled_from(KS_DEC)), draw(st.sampled_from(KS_POW2))],
             "lin": [draw(st.floats(-100.0, 100.0)), draw(_coef), draw(_coef)],
             "seed": draw(st.integers(1, 2 ** 31 - 1)), "n": draw(st.sampled_from([10, 1000, 4000]))}
 
@@ -613,6 +662,30 @@ def raysect_triangle_areas(verts):
     return list(0.5 * np.abs((p[:, 1, 0] - p[:, 0, 0]) * (p[:, 2, 1] - p[:, 0, 1]) - (p[:, 1, 1] - p[:, 0, 1]) * (p[:, 2, 0] - p[:, 0, 0])))
 
 
+def _scale_labels(ctx, verts, area):
+    r1, r2 = min(p[0] for p in verts), max(p[0] for p in verts)
+    z1, z2 = min(p[1] for p in verts), max(p[1] for p in verts)
+    diam = math.hypot(r2 - r1, z2 - z1)
+    ctx.label("size<1e-4" if diam < 1e-4 else "size<1e-2" if diam < 1e-2 else "size<1" if diam < 1.0 else
+              "size<1e2" if diam < 1e2 else "size>=1e2")
+    if area <= 1e-8:
+        ctx.label("area<=1e-8")
+    if area <= 1e-12:
+        ctx.label("area<=1e-12")
+    if diam * diam >= 1e3 * area:
+        ctx.label("sliver>=1e3")
+    if r1 >= 1e4 * diam:
+        ctx.label("majorR>=1e4sizes")
+
+
+KS_DEC = [1e-4, 1e-2, 10.0, 1e3]
+KS_POW2 = [2.0 ** -13, 2.0 ** -7, 8.0, 1024.0]
+
+
+def _scaled(verts, k):
+    return [[k * p[0], k * p[1]] for p in verts]
+
+
 def _labels(ctx, poly, ex):
     ctx.label("kind=" + poly["kind"], "prim=" + poly["prim"], "n=%d" % ex.n)
     conc = is_concave(ex)
@@ -626,6 +699,7 @@ def _labels(ctx, poly, ex):
         ctx.label("on-axis")
     if poly.get("dyadic"):
         ctx.label("dyadic-exact-coordinates")
+    _scale_labels(ctx, poly["verts"], ex.fA)
     return conc
 
 
@@ -760,6 +834,26 @@ def run_geometry(case, ctx):
         tol = 2 * bd[key] + 1e-12 * abs(ref)
         ctx.check(spread <= tol, "invariance/" + name,
                   lambda: "%s differs by %.3g between vertex orders (tol %.3g): %r" % (name, spread, tol, sorted(set(g[:, col]))[:4]))
+    # ---- scale covariance: voxel(k * vertices) has area k^2 A, centroid k c, volume k^3 V
+    a0, cx0, cy0, v0 = got[0]
+    for k in KS_POW2 + KS_DEC:
+        kv = _scaled(verts, k)
+        pow2 = k in KS_POW2
+        tag = "[vertices scaled by %s%r]" % ("2^%d = " % round(math.log2(k)) if pow2 else "", k)
+        with ctx.cut("construct"):
+            vk = AxisymmetricVoxel(kv, primitive_type="csg")
+        exk = Exact(kv)
+        ak, cxk, cyk, volk = _check_voxel_numbers(ctx, vk, exk, rounding_bounds(kv, exk), tag)     # absolute, at that scale
+        if pow2:      # every operation scales exactly by a power of two (no under/overflow in this range): bit-exact
+            ctx.check((ak, cxk, cyk, volk) == (k * k * a0, k * cx0, k * cy0, k * k * k * v0), "scale-covariance",
+                      lambda: "area/centroid/volume %r of the scaled polygon are not k^2, k, k, k^3 times %r %s"
+                              % ((ak, cxk, cyk, volk), (a0, cx0, cy0, v0), tag))
+        else:         # k * x is rounded (relative u per coordinate): one more term of the same a-priori bound
+            f = 2 * SAFETY + 2
+            _near(ctx, ak, k * k * a0, "scale-covariance/area", k * k * (f * bd["A"] + 8 * U * a0), tag)
+            _near(ctx, cxk, k * cx0, "scale-covariance/centroid-r", k * (f * bd["cx"] + 8 * U * abs(cx0)), tag)
+            _near(ctx, cyk, k * cy0, "scale-covariance/centroid-z", k * (f * bd["cy"] + 8 * U * abs(cy0)), tag)
+            _near(ctx, volk, k * k * k * v0, "scale-covariance/volume", k * k * k * (f * bd["V"] + 8 * U * abs(v0)), tag)
     ctx.nt(conc or n >= 5)
 
 
@@ -887,16 +981,21 @@ def _stage(ctx, name):
 
 # ------------------------------------------------------------------------------------------------ sampling
 def _classify(pts, tris, dtol):
-    """index of the first own triangle containing each point (within dtol), -1 if none."""
+    """index of the own triangle containing each point, -1 if none.  dtol = (er, ez): coordinate uncertainties along r
+    and z.  Points are first assigned with strict float orientation tests (what the hit counts use: no tolerance band
+    that could move mass between neighbouring triangles of a sliver); points left over (on an edge, or outside by
+    rounding) are assigned with the per-axis uncertainty |dr| ez + |dz| er on the cross product."""
+    er, ez = dtol
     x, y = pts[:, 0], pts[:, 1]
     idx = np.full(len(pts), -1, dtype=int)
-    for j in range(len(tris) - 1, -1, -1):
-        (ax, ay), (bx, by), (cx, cy) = tris[j]
-        ins = np.ones(len(pts), dtype=bool)
-        for (px, py), (qx, qy) in (((ax, ay), (bx, by)), ((bx, by), (cx, cy)), ((cx, cy), (ax, ay))):
-            ln = math.hypot(qx - px, qy - py)
-            ins &= ((qx - px) * (y - py) - (qy - py) * (x - px)) >= -dtol * ln
-        idx[ins] = j
+    for tolerant in (True, False):           # strict pass last, so that it overrides the tolerant assignment
+        for j in range(len(tris) - 1, -1, -1):
+            (ax, ay), (bx, by), (cx, cy) = tris[j]
+            ins = np.ones(len(pts), dtype=bool)
+            for (px, py), (qx, qy) in (((ax, ay), (bx, by)), ((bx, by), (cx, cy)), ((cx, cy), (ax, ay))):
+                tol = (abs(qx - px) * ez + abs(qy - py) * er) if tolerant else 0.0
+                ins &= ((qx - px) * (y - py) - (qy - py) * (x - px)) >= -tol
+            idx[ins] = j
     return idx
 
 
@@ -927,7 +1026,7 @@ def run_sampling(case, ctx):
     _labels(ctx, poly, ex)
     n, N = ex.n, int(case["n"])
     if poly["kind"] in LOOKALIKE:
-        N = max(N, 20000)             # 2.5 % of the bounding box outside the polygon -> >= 500 stray points expected
+        N = max(N, 10000)             # 2.5 % of the bounding box outside the polygon -> >= 250 stray points expected
     rot, rev = int(case["rot"]) % n, bool(case["rev"])
     verts = variant(base, rot, rev)
     if rev:
@@ -963,7 +1062,7 @@ def run_sampling(case, ctx):
     z1, z2 = min(p[1] for p in base), max(p[1] for p in base)
     diam = math.hypot(r2 - r1, z2 - z1)
     maxabs = max(abs(r1), abs(r2), abs(z1), abs(z2))
-    dtol = 1e-12 * (maxabs + diam)
+    dtol = (1e-12 * max(abs(r1), abs(r2)), 1e-12 * max(abs(z1), abs(z2), z2 - z1))
     tris = own_triangles(poly)
 
     def recorded(vox, verts, rot, rev, N):
@@ -1035,7 +1134,7 @@ def run_sampling(case, ctx):
                 tag2 = "[order: rot=%d rev=%s]" % (k2, rev2)
                 _stage(ctx, "construct + emissivity_from_function " + tag2)
                 vox2 = build_voxel(ctx, v2, "csg", kind_in, ex, bd, tag2)
-                recorded(vox2, v2, k2, rev2, 6000)   # >= 150 stray points expected at 5 % taper
+                recorded(vox2, v2, k2, rev2, 4000)   # >= 100 stray points expected at 5 % taper
 
     # ---- Function3D objects (no Python callback): linear and quadratic
     X, Z = Arg3D("x"), Arg3D("z")
@@ -1234,6 +1333,33 @@ def run_grid(case, ctx):
         tol = bernstein(N, lin_sd(a, b, e), R) * (1 + 1e-9) + 2 * (N + 8) * U * (abs(c0) + (abs(a) + abs(b)) * max(abs(r1), abs(r2), abs(z1), abs(z2)))
         ctx.check(abs(el[i] - mu) <= tol, "linear",
                   lambda: "voxel %d: linear field %r sampled mean %r, f(centroid) %r, |diff| %.4g > %.4g" % (i, case["lin"], el[i], mu, abs(el[i] - mu), tol))
+    # ---- scale covariance of the grid: total_volume(k * cells) = k^3 total_volume
+    with ctx.cut("total_volume"):
+        tv0 = grid.total_volume
+    for k in case.get("k") or []:
+        k = float(k)
+        pow2 = k in KS_POW2
+        kcells = [_scaled(c, k) for c in cells]
+        tag = "[grid scaled by %r]" % k
+        _stage(ctx, "construct scaled grid")
+        with ctx.cut("construct"):
+            g2 = ToroidalVoxelGrid(kcells, primitive_type="csg")
+        exk = [Exact(c) for c in kcells]
+        bdk = [rounding_bounds(c, e) for c, e in zip(kcells, exk)]
+        for i in range(m):
+            _check_voxel_numbers(ctx, g2[i], exk[i], bdk[i], "[voxel %d of %d] %s" % (i, m, tag))
+        with ctx.cut("total_volume"):
+            tvk = g2.total_volume
+        ctx.close(tvk, sum(e.fV for e in exk), "total_volume=sum(exact)", rtol=(m + 4) * U,
+                  atol=SAFETY * sum(b["V"] for b in bdk), info="(%d voxels) %s" % (m, tag))
+        if pow2:
+            ctx.check(tvk == k * k * k * tv0, "scale-covariance/total_volume",
+                      lambda: "total_volume %r of the scaled grid is not k^3 = %r times %r %s" % (tvk, k ** 3, tv0, tag))
+        else:
+            _near(ctx, tvk, k ** 3 * tv0, "scale-covariance/total_volume",
+                  k ** 3 * ((2 * SAFETY + 2) * sum(b["V"] for b in bds) + (m + 8) * U * abs(tv0)), tag)
+    for i in range(m):
+        _scale_labels(ctx, cells[i], exs[i].fA)
     distinct = len(set(round(v / max(vols), 9) for v in vols)) >= 2 if max(vols) > 0 else False
     nt = m >= 2 and distinct and state["proper_subset"]
     if nt:
@@ -1242,7 +1368,7 @@ def run_grid(case, ctx):
 
 
 SUBCHECKS = {
-    "geometry": Given(geometry_strategy, run_geometry, quick=2000, thorough=30000),
-    "sampling": Given(sampling_strategy, isolated("sampling", run_sampling), quick=2000, thorough=24000),
-    "grid": Given(grid_strategy, isolated("grid", run_grid), quick=1600, thorough=12000),
+    "geometry": Given(geometry_strategy, run_geometry, quick=1400, thorough=30000),
+    "sampling": Given(sampling_strategy, isolated("sampling", run_sampling), quick=1000, thorough=24000),
+    "grid": Given(grid_strategy, isolated("grid", run_grid), quick=800, thorough=12000),
 }
